@@ -9,6 +9,8 @@ import (
 	"fmt"
 	"math/big"
 	"strings"
+	"sync"
+	"sync/atomic"
 	"time"
 
 	"gitlab.com/aquachain/aquachain/aqua/downloader"
@@ -229,6 +231,9 @@ type VerifRemote struct {
 	pm   *ProtocolManager
 	ID   string
 	Done chan error // result of pm.handle when the node drops the peer
+
+	pumpOnce sync.Once
+	msgs     chan verifInMsg
 }
 
 func (v *VerifPM) Connect(name string, head common.Hash, td *big.Int) (*VerifRemote, error) {
@@ -271,29 +276,37 @@ func (r *VerifRemote) Sync() <-chan struct{} {
 	return ch
 }
 
-// ReadMsg: the next message the node sent to this peer.
+// ReadMsg: the next message the node sent to this peer (one pump goroutine per
+// remote feeds r.msgs, so that a timed-out wait never swallows a message).
 func (r *VerifRemote) ReadMsg(timeout time.Duration) (code uint64, payload []byte, ok bool) {
-	type res struct {
-		c uint64
-		p []byte
-		e error
-	}
-	ch := make(chan res, 1)
-	go func() {
-		m, err := r.app.ReadMsg()
-		if err != nil {
-			ch <- res{e: err}
-			return
-		}
-		b, _ := ioutilReadAll(m)
-		ch <- res{c: m.Code, p: b}
-	}()
+	r.pumpOnce.Do(func() {
+		r.msgs = make(chan verifInMsg, 64)
+		go func() {
+			for {
+				m, err := r.app.ReadMsg()
+				if err != nil {
+					close(r.msgs)
+					return
+				}
+				b, _ := ioutilReadAll(m)
+				r.msgs <- verifInMsg{m.Code, b}
+			}
+		}()
+	})
 	select {
-	case x := <-ch:
-		return x.c, x.p, x.e == nil
+	case x, open := <-r.msgs:
+		if !open {
+			return 0, nil, false
+		}
+		return x.code, x.payload, true
 	case <-time.After(timeout):
 		return 0, nil, false
 	}
+}
+
+type verifInMsg struct {
+	code    uint64
+	payload []byte
 }
 
 func ioutilReadAll(m p2p.Msg) ([]byte, error) {
@@ -329,3 +342,73 @@ func (r *VerifRemote) Connected() bool { return r.pm.peers.Peer(r.ID) != nil }
 
 // LocalHeight is the node's current block number.
 func (v *VerifPM) LocalHeight() uint64 { return v.pm.blockchain.CurrentBlock().NumberU64() }
+
+// ---- fast sync end to end (C17 final phase)
+
+// VerifServer is an honest full node's data (own database, own BlockChain with the
+// blocks inserted): what a remote peer serves headers, bodies, receipts and state
+// trie nodes from.
+type VerifServer struct {
+	chain    *core.BlockChain
+	Blocks   []*types.Block // index = number (0 = genesis)
+	Receipts []types.Receipts
+}
+
+// NodeData is the state / storage trie node or contract code with the given hash.
+func (s *VerifServer) NodeData(h common.Hash) ([]byte, bool) {
+	b, err := s.chain.TrieNode(h)
+	return b, err == nil
+}
+
+func (s *VerifServer) TD(i int) *big.Int { return s.chain.GetTd(s.Blocks[i].Hash(), uint64(i)) }
+
+// VerifNewFastPair: an empty node in fast-sync mode, and a server holding
+// remoteBlocks blocks (1..3 value transfers each) on the same genesis.
+func VerifNewFastPair(remoteBlocks int) (*VerifPM, *VerifServer, error) {
+	gspec := &core.Genesis{Config: params.TestChainConfig,
+		Alloc: core.GenesisAlloc{common.HexToAddress("0x71562b71999873DB5b286dF957af199Ec94617F7"): {Balance: big.NewInt(1000000)}}}
+	mk := func() (aquadb.Database, *core.BlockChain, *types.Block, error) {
+		db := aquadb.NewMemDatabase()
+		genesis := gspec.MustCommit(db)
+		bc, err := core.NewBlockChain(context.TODO(), db, nil, gspec.Config, aquahash.NewFaker(), vm.Config{})
+		return db, bc, genesis, err
+	}
+	// the server
+	sdb, sbc, genesis, err := mk()
+	if err != nil {
+		return nil, nil, err
+	}
+	from := crypto.PubkeyToAddress(verifBankKey.PubKey())
+	nonce := uint64(0)
+	blocks, receipts := core.GenerateChain(context.TODO(), gspec.Config, genesis, aquahash.NewFaker(), sdb, remoteBlocks, func(i int, g *core.BlockGen) {
+		for j := 0; j < 1+i%3; j++ {
+			tx := types.NewTransaction(nonce, common.Address{byte(i + 1), byte(j), 7}, big.NewInt(1), params.TxGas, big.NewInt(0), nil)
+			tx, _ = types.SignTx(tx, types.MakeSigner(gspec.Config, g.Number()), verifBankKey)
+			g.AddTx(tx)
+			nonce++
+		}
+		_ = from
+	})
+	if _, err := sbc.InsertChain(blocks); err != nil {
+		return nil, nil, err
+	}
+	srv := &VerifServer{chain: sbc, Blocks: append([]*types.Block{genesis}, blocks...), Receipts: append([]types.Receipts{nil}, receipts...)}
+	// the empty node
+	db, bc, _, err := mk()
+	if err != nil {
+		return nil, nil, err
+	}
+	pm, err := NewProtocolManager(gspec.Config, downloader.FastSync, DefaultConfig.ChainId, new(event.TypeMux), &verifTxPool{}, aquahash.NewFaker(), bc, db)
+	if err != nil {
+		return nil, nil, err
+	}
+	pm.Start(1000)
+	v := &VerifPM{pm: pm, db: db, Hashes: []common.Hash{genesis.Hash()}, Blocks: []*types.Block{genesis}}
+	return v, srv, nil
+}
+
+// FastSyncEnabled: is the node (still) in fast-sync mode.
+func (v *VerifPM) FastSyncEnabled() bool { return atomic.LoadUint32(&v.pm.fastSync) == 1 }
+
+// FastHeight is the number of the current fast block (header + body + receipts known).
+func (v *VerifPM) FastHeight() uint64 { return v.pm.blockchain.CurrentFastBlock().NumberU64() }
